@@ -514,8 +514,14 @@ impl Retrier {
                                     log::warn!(
                                         "{tower_id} cannot be reached. Tower will be retried later"
                                     );
-                                    return Err(Error::transient(RetryError::Unreachable));
+                                } else {
+                                    // The tower replied, but not with something we can use. Keep the data pending and
+                                    // let the backoff strategy decide when to try again (instead of re-sending right away).
+                                    log::warn!(
+                                        "Unexpected response from {tower_id}. Tower will be retried later"
+                                    );
                                 }
+                                return Err(Error::transient(RetryError::Unreachable));
                             }
                             AddAppointmentError::ApiError(e) => match e.error_code {
                                 errors::INVALID_SIGNATURE_OR_SUBSCRIPTION_ERROR => {
